@@ -7,6 +7,7 @@
    within a deviation bound of a centre; the transition "multiply the image by c" must multiply every intensity by c.
 """
 import itertools
+import os
 import math
 
 import numpy as np
@@ -17,12 +18,12 @@ from fsmc.explorer import ProductSystem, ListSystem
 PID = "C17"
 RULE = ("all 3^9 three-valued 3x3 windows; all 576 unit impulses x polylines x layers x placements; configurations within the deviation bound; "
         "non-trivial = image not constant; classes = config signature / window multiset / impulse-response signature")
-BOUND = {"quick": "all 19683 windows; all 576 impulses x 6 polylines x layers 0..2 x 2 placements; deviation bound 2 over 9 axes (incl. images in which one interface is exactly black, and an earlier quantification of the same interface objects that differs in placement, image or band width); every plain-list call repeated with default-valued arguments omitted",
+BOUND = {"quick": "all 19683 windows; all 576 impulses x 6 polylines x layers 0..2 x 2 placements; deviation bound 2 over 10 axes (incl. quantification through read_myosin from a TIFF written to disk, images in which one interface is exactly black, and an earlier quantification of the same interface objects that differs in placement, image or band width); every plain-list call repeated with default-valued arguments omitted",
          "thorough": "same with layers 0..3 and 3 placements; deviation bound 3"}
 ASSUMPTIONS = ["PIL truncates fractional pixel coordinates toward zero; all placements keep coordinates positive",
                "the window of the LAST vertex of a polyline is not part of the integrated band (the walk stops before the end point); images are dark there so the convention does not matter in the configuration sweep; the impulse sweep reports it",
                "'equal for all interfaces of a uniformly bright image' is checked without integration (with integration the band size per unit length depends on the direction of the polyline)"]
-REQUIRED_TAGS = {"all": ["windows", "impulses", "integrate", "average", "float_image", "uint8_image", "uniform_image", "rescaled", "repeated_interface", "diagonal", "curved", "zero_intensity_interface", "defaults_omitted", "requantified_with_other_options", "prior_call:place", "prior_call:image", "prior_call:layers"]}
+REQUIRED_TAGS = {"all": ["windows", "impulses", "integrate", "average", "float_image", "uint8_image", "uniform_image", "rescaled", "repeated_interface", "diagonal", "curved", "zero_intensity_interface", "defaults_omitted", "requantified_with_other_options", "prior_call:place", "prior_call:image", "prior_call:layers", "through_read_myosin"]}
 
 POLYLINES = {
     "horizontal": [(4, 6), (7, 6), (10, 6), (13, 6)],
@@ -115,6 +116,18 @@ def make_image(kind, size, scale, dark=(), blackout=()):
             return None, None
         return Image.fromarray(a.astype(np.uint8)), a
     return Image.fromarray(a.astype(np.float64) if False else a.astype(np.float32)), a.astype(np.float32).astype(float)
+
+
+_TMP = None
+
+
+def tmpdir():
+    global _TMP
+    if _TMP is None or not os.path.isdir(_TMP):
+        import atexit, shutil, tempfile
+        _TMP = tempfile.mkdtemp(prefix="c17_")
+        atexit.register(shutil.rmtree, _TMP, True)
+    return _TMP
 
 
 # ------------------------------------------------------------------ all 3x3 windows
@@ -212,7 +225,8 @@ class Configs(ProductSystem):
     def axes(self, base):
         return {"place": [0, 1, 2, 3], "layers": self.layers, "integrate": [False, True], "normalize": [None, "average"],
                 "image": ["float", "uint8", "uniform", "uint8_black_first", "float_black_first"], "scale": [1.0, 3.0, 0.25], "list": ["plain", "repeated", "equal_valued", "single"],
-                "prior": [None, "place", "image", "layers"]}
+                "prior": [None, "place", "image", "layers"],
+                "entry": ["direct", "file"]}      # "file": the image is written as a TIFF (8 bit 'L' / 32-bit float 'F') and quantified through read_myosin
 
     def eval_config(self, base, cfg):
         import forsys.myosin as fm
@@ -257,7 +271,18 @@ class Configs(ProductSystem):
             img_ = make_image("float" if cfg["image"] != "float" else "uniform", 96, 1.0, (), [])[0] if cfg["prior"] == "image" else img
             fsutil.call(fm.get_intensities, edges, img_, cfg["integrate"], cfg["normalize"], cfg["layers"] + (1 if cfg["prior"] == "layers" else 0), rescale=r_, offset=o_)
             tags.append("prior_call:" + cfg["prior"])
-        res, ex = fsutil.call(fm.get_intensities, edges, img, cfg["integrate"], cfg["normalize"], cfg["layers"], rescale=rescale, offset=offset)
+        if cfg["entry"] == "file":
+            import types
+            path = os.path.join(tmpdir(), "c17_%d_%s.tif" % (os.getpid(), fsutil.state_hash([base, cfg])[:12]))
+            img.save(path)
+            try:
+                res, ex = fsutil.call(fm.read_myosin, types.SimpleNamespace(internal_big_edges=edges, big_edges_list=[]), path, cfg["integrate"], cfg["normalize"], cfg["layers"],
+                                      rescale=rescale, offset=offset)
+            finally:
+                os.remove(path)
+            tags.append("through_read_myosin")
+        else:
+            res, ex = fsutil.call(fm.get_intensities, edges, img, cfg["integrate"], cfg["normalize"], cfg["layers"], rescale=rescale, offset=offset)
         viol, known = [], []
         # the same call with every argument that equals its default (integrate=False, normalize='average', layers=1,
         # rescale=[1, 1], offset=[0, 0]) left out
